@@ -13,6 +13,8 @@ use std::sync::Mutex;
 use std::time::Instant;
 
 pub const DEFAULT_SEED: u64 = 20260927;
+/// wall-clock hang detector threshold per scenario (scenarios take micro- to milliseconds)
+pub const HANG_SECS: u64 = 90;
 
 #[derive(Clone, Copy, Debug, PartialEq, Eq)]
 pub enum Tier {
@@ -341,10 +343,32 @@ pub fn run_check<P: Prop>(p: &P, tier: Tier) -> i32 {
 	if p.isolated() {
 		run_isolated(p, tier, seed, runs, wall_cap, workers, &acc, &found);
 	} else {
+		// hang detector (wall clock, outside the simulated system): a scenario that runs for more than
+		// HANG_SECS is written out as a replay file, confirmed in a child process and reported
+		let slots: Vec<(AtomicU64, AtomicU64)> = (0..workers).map(|_| (AtomicU64::new(0), AtomicU64::new(0))).collect();
+		let all_done = AtomicBool::new(false);
+		let live = AtomicU64::new(workers as u64);
 		std::thread::scope(|s| {
-			for _ in 0..workers {
-				s.spawn(|| {
+			s.spawn(|| {
+				while !all_done.load(Ordering::Relaxed) {
+					std::thread::sleep(std::time::Duration::from_millis(250));
+					let now = t0.elapsed().as_millis() as u64;
+					for (run_plus_one, started) in &slots {
+						let r = run_plus_one.load(Ordering::Relaxed);
+						if r != 0 && now.saturating_sub(started.load(Ordering::Relaxed)) > HANG_SECS * 1000 {
+							report_hang(p, seed, tier, r - 1);
+						}
+					}
+				}
+			});
+			let slots = &slots;
+			let live = &live;
+			let all_done = &all_done;
+			let (next, stop, found, acc, nondeterministic, t0) = (&next, &stop, &found, &acc, &nondeterministic, &t0);
+			for w in 0..workers {
+				s.spawn(move || {
 					let mut local = Acc::default();
+					let slot = &slots[w];
 					loop {
 						if stop.load(Ordering::Relaxed) {
 							break;
@@ -358,7 +382,10 @@ pub fn run_check<P: Prop>(p: &P, tier: Tier) -> i32 {
 							break;
 						}
 						let scn = generate(p, seed, tier, run);
+						slot.1.store(t0.elapsed().as_millis() as u64, Ordering::Relaxed);
+						slot.0.store(run + 1, Ordering::Relaxed);
 						let o = exec_caught(p, &scn);
+						slot.0.store(0, Ordering::Relaxed);
 						// in-process determinism sample: every 50th run is executed twice
 						if run % 50 == 0 {
 							let o2 = exec_caught(p, &scn);
@@ -376,6 +403,9 @@ pub fn run_check<P: Prop>(p: &P, tier: Tier) -> i32 {
 						}
 					}
 					merge(&mut acc.lock().unwrap(), local);
+					if live.fetch_sub(1, Ordering::SeqCst) == 1 {
+						all_done.store(true, Ordering::SeqCst);
+					}
 				});
 			}
 		});
@@ -965,4 +995,32 @@ fn tail(s: &str, n: usize) -> String {
 		i += 1;
 	}
 	s[i..].replace('\n', " | ")
+}
+
+fn report_hang<P: Prop>(p: &P, seed: u64, tier: Tier, run: u64) -> ! {
+	let scn = generate(p, seed, tier, run);
+	let replay_dir = verif_root().join("replays");
+	let _ = std::fs::create_dir_all(&replay_dir);
+	let path = replay_dir.join(format!("{}-{}-{}.json", p.id(), seed, run));
+	let kind = "process-killed:hang".to_string();
+	let rf = ReplayFile {
+		property: p.id().to_string(),
+		seed,
+		run,
+		expect_kind: kind.clone(),
+		detail: format!("scenario still running after {HANG_SECS} s"),
+		scenario: scn,
+	};
+	let _ = std::fs::write(&path, serde_json::to_string_pretty(&rf).unwrap());
+	match replay_in_child(p.id(), &path) {
+		Ok(Some(k)) if k.starts_with("process-killed") => {
+			println!("violation kind={kind} run={run} detail=scenario does not terminate (confirmed in a fresh process)");
+			println!("VIOLATION property={} replay={}", p.id(), path.display());
+			std::process::exit(1);
+		}
+		other => {
+			eprintln!("HARNESS-ERROR: run {run} exceeded {HANG_SECS} s here but replays as {other:?}; file {}", path.display());
+			std::process::exit(2);
+		}
+	}
 }
